@@ -412,6 +412,15 @@ pub fn draw_instance(lim: &Limits) -> Instance {
             }
         }
     }
+    // a very wide auxiliary segment on a very short trace: the shape in which the row-major LDE
+    // of extension columns has more 8-column segments than rows
+    let wide_aux = lim.max_width >= 40 && !rescue && tape::w("inst.wide_aux", 40) == 39;
+    if wide_aux {
+        aux_width = 150 + tape::w("inst.wide_aux.width", 105) as usize;
+        main_width = 1 + tape::w("inst.wide_aux.main", (255 - aux_width) as u64) as usize;
+        num_rands = 1 + tape::w("inst.wide_aux.rands", 4) as usize;
+    }
+    let log_n = if wide_aux { 3 + tape::w("inst.wide_aux.len", 2) as u32 } else { log_n };
     // very wide traces only on short ones (cost)
     if main_width + aux_width > 64 && log_n > 7 {
         main_width = main_width.min(48);
@@ -419,7 +428,7 @@ pub fn draw_instance(lim: &Limits) -> Instance {
     }
     let knobs = Knobs {
         seed: tape::bits64(Stream::Workload, "inst.struct_seed"),
-        max_degree: [1u8, 2, 2, 3, 4, 8][tape::w("inst.max_degree", 6) as usize],
+        max_degree: if wide_aux { 1 + tape::w("inst.max_degree.wide", 2) as u8 } else { [1u8, 2, 2, 3, 4, 8][tape::w("inst.max_degree", 6) as usize] },
         exemptions: match tape::w("inst.exempt.class", 4) {
             0 | 1 => 1,
             2 => 2 + tape::w("inst.exempt.small", 4) as u16,
@@ -448,7 +457,11 @@ pub fn draw_instance(lim: &Limits) -> Instance {
     };
     let min_log_b = min_blowup.ilog2();
     let max_log_b = (lim.max_log_lde.saturating_sub(log_n)).clamp(min_log_b, 7);
-    let log_b = min_log_b + tape::w("opt.blowup", (max_log_b - min_log_b + 1) as u64) as u32;
+    let log_b = if wide_aux && tape::w("opt.blowup.wide_min", 2) == 0 {
+        min_log_b
+    } else {
+        min_log_b + tape::w("opt.blowup", (max_log_b - min_log_b + 1) as u64) as u32
+    };
     let blowup = 1usize << log_b;
     let lde = (1usize << log_n) * blowup;
     let queries = match tape::w("opt.queries.class", 8) {
@@ -461,6 +474,7 @@ pub fn draw_instance(lim: &Limits) -> Instance {
     }
     .min(lde - 1);
     let extension = match field {
+        0 | 1 if wide_aux && tape::w("opt.extension.wide_cubic", 2) == 0 => 3,
         2 => 1 + tape::w("opt.extension", 2) as u8,
         _ => 1 + tape::w("opt.extension", 3) as u8,
     };
